@@ -200,6 +200,28 @@ func (ts *taskState) pickVer(key string, n int64) string {
 		if len(s) > 0 {
 			return s[0]
 		}
+	case 3, 4, 5:
+		// near misses of the latest version: versions are opaque strings compared for
+		// equality, so none of these may be taken for the stored one
+		if len(s) > 0 {
+			v := s[len(s)-1]
+			var m string
+			switch n {
+			case 3:
+				m = strings.ToLower(v)
+				if m == v {
+					m = strings.ToUpper(v)
+				}
+			case 4:
+				m = v + " "
+			default:
+				m = v[:len(v)-1]
+			}
+			if m != v && m != "" {
+				cv.alias(m, v, n)
+				return m
+			}
+		}
 	}
 	ts.bogus++
 	return fmt.Sprintf("01BOGUS%s%04d", strings.ToUpper(ts.name), ts.bogus)
